@@ -4,8 +4,8 @@
 use crate::rng::Rng;
 use crate::world::World;
 
-pub const KINDS: [&str; 12] = [
-    "torn-write", "lost-write", "write-replay", "interleaved-versions", "bit-flip", "byte-substitution", "crlf", "lone-cr", "nul-bytes", "bom", "size-multiplier", "invalid-utf8",
+pub const KINDS: [&str; 13] = [
+    "torn-in-literal", "torn-write", "lost-write", "write-replay", "interleaved-versions", "bit-flip", "byte-substitution", "crlf", "lone-cr", "nul-bytes", "bom", "size-multiplier", "invalid-utf8",
 ];
 
 /// Apply one content fault of `kind` to `path`. Returns false if it did not change anything.
@@ -20,6 +20,15 @@ pub fn apply(world: &mut World, path: &str, kind: &str, r: &mut Rng, allow_binar
             }
             let at = r.usize(bytes.len());
             bytes.truncate(at);
+        }
+        "torn-in-literal" => {
+            // the save was cut inside a string or character literal (after a quote or a backslash)
+            let marks: Vec<usize> = bytes.iter().enumerate().filter(|(_, b)| matches!(**b, b'"' | b'\'' | b'\\')).map(|(i, _)| i).collect();
+            if marks.is_empty() {
+                return false;
+            }
+            let at = *r.pick(&marks) + 1 + r.usize(6);
+            bytes.truncate(at.min(bytes.len()));
         }
         "lost-write" => bytes.clear(),
         "write-replay" => {
